@@ -333,3 +333,43 @@ def run(ctx):
             except PathLimit as e:
                 r4.undecidable("gate", "cannot enumerate the paths of update-engine: %s" % e)
     r4.floor(1, "gate")
+
+    # ---------------- R5 the gate notices every change of the file, and its removal
+    r5 = chk.rule("C11.R5", "the reload is gated by `modification time differs` (not `is newer`), and a file that has disappeared empties the map like at creation",
+                  "behaves as a context newly created over the same user files: an older restored file or a deleted file is honoured too")
+    if len(ts_fields) == 1:
+        ts = ts_fields[0]
+        ub = _roles.ib_paths(prog, R["update"])
+        ws5 = phonetic.field_writes(prog, R["update"], mods, body=ub)
+        ac5 = sorted({bb for (fl, op, bb, w) in ws5 if fl[:2] == (R["sug_field"], R["user_autocorrect"]) and op == "assign"})
+        cmp_found = None
+        for bb in ac5:
+            for (d, pol, sw_) in guards_of(ub, bb):
+                if d.k == "call" and any(self_path(x) == (ts,) for a_ in d.a[1] for x in a_.walk()):
+                    nm = d.a[0].split("::")[-1]
+                    if nm in ("ne", "eq", "gt", "lt", "ge", "le") and cmp_found is None:
+                        cmp_found = (nm, bb, pol)
+        if cmp_found is None:
+            r5.undecidable("gate-compare", "no comparison of the stored modification time guards the reload", common.fn_line(prog, R["update"]))
+        elif cmp_found[0] in ("ne", "eq"):
+            r5.ok("gate-compare", "reload ⇐ the file's modification time differs from the stored one")
+        else:
+            r5.violation("gate-compare", "the reload is gated by an ordering comparison (%s) of modification times: a file replaced by an older one (restored backup, cp -p) is never "
+                         "loaded, a newly created context would load it" % cmp_found[0], site_of(ub, cmp_found[1]))
+        # removal: some assignment of the map lies on the failure edge of File::open
+        opens = [s_ for s_ in ub.rblocks if ub.blocks[s_]["term"]["k"] == "switch"
+                 and contains_call(strip_refs(ub.expr_operand(ub.blocks[s_]["term"]["discr"])), lambda n: n.endswith("File::open")) is not None]
+        removed_ok = False
+        for s_ in opens:
+            for (node, vals, tgt) in ub.switch_edges(s_):
+                is_err = vals == (1,) or (vals == "otherwise" and 1 not in [v for v, _ in ub.blocks[s_]["term"]["targets"]] and 0 in [v for v, _ in ub.blocks[s_]["term"]["targets"]])
+                if is_err and any(bb in ub.reachable_from(tgt) for bb in ac5):
+                    removed_ok = True
+        if not opens:
+            r5.undecidable("removed-file", "no File::open result is branched on in update-engine", common.fn_line(prog, R["update"]))
+        elif removed_ok:
+            r5.ok("removed-file", "when the file cannot be opened any more the map is replaced (as the constructor starts with an empty one)")
+        else:
+            r5.violation("removed-file", "when the user auto-correct file cannot be opened update-engine keeps the old entries; a newly created context has none",
+                         site_of(ub, opens[0]))
+    r5.floor(2, "gate-compare, removed-file")
